@@ -161,7 +161,8 @@ def check_C14(run):
                 clause = "a concurrent call is not a step of the specification (result differs from the sequential run, or the shared state changed)"
                 report = json.dumps(e)
             run.failures.append({"prop": "C14", "clause": clause, "q": "%s by %s" % (e.get("call"), e.get("g")), "detail": report,
-                                 "_replay": {"pipeline": "conc", "g": g, "per": per, "seed": run.seed * 100 + i, "corpus": corpus, "race": bool(races), "kinds": kinds}})
+                                 "_replay": {"pipeline": "conc", "g": g, "per": per, "seed": run.seed * 100 + i, "corpus": corpus, "race": bool(races), "kinds": kinds,
+                                             "queries": [json.loads(l) for l in open(corpus)]}})
         if i == 0:
             run.add_sample({"kind": "events of real goroutines validated against Concurrent.tla", "first_events": [json.loads(l) for l in first_lines(trace, 400)[-4:]]})
     run.notes.append("corpus of %d queries (repository tests + generated, every operator and leaf kind) -> %d distinct calls; %d runs with up to %d goroutines, "
@@ -172,19 +173,17 @@ def replay_conc(run, rp):
     # a race needs the same interleaving to show again, which cannot be forced: the detector's report is the evidence
     if rp.get("race"):
         return True
-    # a third corpus for an "option storm": all goroutines parse the same few queries with bare terms under four different
-    # default fields, nothing else, in a tight loop
-    storm = ["status:open AND (error OR \"timed out\") AND NOT retry* AND lvl:[1 TO 5]", "a b c", "x AND NOT y OR z~2", "\"p q\" r* /s/ 4"]
-    stormcorpus = os.path.join(run.work, "corpus_storm.ndjson")
-    with open(stormcorpus, "w") as f:
-        for q in storm:
-            f.write(json.dumps(q) + "\n")
     racebin = build_race_harness()
     td = run.sub("replay_conc")
     trace = os.path.join(td, "trace.ndjson")
     seqf, concf = os.path.join(td, "seq.ndjson"), os.path.join(td, "conc.ndjson")
     e2 = dict(os.environ, GORACE="halt_on_error=0 exitcode=0")
     kargs = ["-kinds", rp["kinds"]] if rp.get("kinds") else []
+    if rp.get("queries"):                      # the corpus travels in the recipe: the replay file stays usable after the run
+        rp = dict(rp, corpus=os.path.join(td, "corpus.ndjson"))
+        with open(rp["corpus"], "w") as f:
+            for q in rp["queries"]:
+                f.write(json.dumps(q) + "\n")
     subprocess.run([racebin, "conc", "-phase", "seq", "-corpus", rp["corpus"], "-out", seqf] + kargs, env=e2, stdout=subprocess.PIPE, stderr=subprocess.PIPE, text=True, timeout=1800)
     p = subprocess.run([racebin, "conc", "-phase", "conc", "-corpus", rp["corpus"], "-g", str(rp["g"]), "-per", str(rp["per"]), "-seed", str(rp["seed"]), "-out", concf] + kargs,
                        env=e2, stdout=subprocess.PIPE, stderr=subprocess.PIPE, text=True, timeout=1800)
